@@ -6,22 +6,6 @@ From HL Require Import Base Model Shape Algo Api Conc OpsLemmas Lemmas ShapeLemm
 (* at most one fault in the whole run: while it has not fired no lock is dead *)
 Definition INV (F : bool) (D : list lock) : Prop := F = true -> D = [].
 
-Fixpoint sub_ok (xs H : list hold) : Prop :=
-  match xs with [] => True | x :: r => In x H /\ sub_ok r (rem1 x H) end.
-
-Lemma sub_ok_perm xs : forall H B, Permutation H (xs ++ B) -> sub_ok xs H.
-Proof.
-  induction xs as [|x r IH]; intros H B P; cbn [sub_ok]; [exact I|]. split.
-  - eapply Permutation_in; [symmetry; exact P|]. now left.
-  - apply (IH _ B). apply rem1_perm. exact P.
-Qed.
-
-Lemma sub_ok_app a : forall b H, sub_ok (a ++ b) H <-> sub_ok a H /\ sub_ok b (rel_all a H).
-Proof.
-  induction a as [|x r IH]; intros b H; cbn [app sub_ok rel_all fold_left]; [tauto|].
-  rewrite IH. unfold rel_all. tauto.
-Qed.
-
 Implicit Types (Qr : val -> postf) (Qt QB : postf) (H : list hold) (F : bool) (D : list lock).
 
 Lemma wpf_then a b H F D Qr Qt QB :
